@@ -29,9 +29,10 @@ func init() {
 		cs.Prelude = "Local Open Scope nat_scope.\n" // so that coqc prints the indices of mismatching cases as plain numbers
 		// the same cases with the re-parse ALSO answered by the model (XmlTok.read_tree instead of the table computed with
 		// etree): DsigReader.dsig_obs_model2; third component = entries of the reparse table on which model and etree differ
-		dgReaderSet = c.NewSet("validate2", "Base Time Xml Ns Response Dsig Canon XmlTok DsigReader",
+		// fourth component: the premise of the round-trip theorems (P_DsigReader.c14n_wf) evaluated on the presented element
+		dgReaderSet = c.NewSet("validate2", "Base Time Xml Ns Response Dsig Canon XmlTok DsigReader P_DsigReader",
 			"(oracle_tables * list cert * instant * node * option node * option node)",
-			"fun i => match i with (t, store, now, root, et, em) => dsig_obs_model2 t store now root et em end")
+			"fun i => match i with (t, store, now, root, et, em) => dsig_obs_reader t store now root et em end")
 		dgReaderSet.PerShard = 24
 		dgReaderSet.Prelude = cs.Prelude
 		defer func() { dgReaderSet = nil }()
